@@ -40,7 +40,8 @@ RULE = ("one case = (problem class, data fixture, construction mode [direct | fa
         "after evaluation, a second build (same encoding, then another encoding) equals the isolated build, the first problem's "
         "data and answers unchanged afterwards; chunked data: OHV _calc_ohvmat for every chunk size mem in {None,1..nconfig+1,1024} "
         "and the OHV factories of all encodings on populations of 45/46/47/65 taxa (990..2145 crosses, every ohvmat row + decisions on "
-        "chunk-boundary and tail rows), numpy.empty NaN-poisoned during factory calls; distinct by digest of "
+        "chunk-boundary and tail rows), numpy.empty NaN-poisoned during factory calls; large decisions: every class on 130 taxa "
+        "(int8 genotypes, one locus fixed for 2) with selections of 63/64/65/127/128/129 members in every encoding; distinct by digest of "
         "(class, fixture, mode, decision)")
 ASSUME = ["mc/compat.py restores removed numpy names only",
           "numpy.linalg.cholesky / float arithmetic are correct (the kinship factor handed to directly constructed problems is "
@@ -123,6 +124,8 @@ def shards(tier, seed):
             out.append(("matrix", n, v))
     for n in LARGE_N:
         out.append(("large", n))
+    for f in FM.FAMILIES:
+        out.append(("bigdecision", f.name))
     for n in ns:
         for v in variants:
             out.append(("chunks", n, v))
@@ -1152,6 +1155,103 @@ def _rows(prob):
 
 
 # ----------------------------------------------------------------------------------------------------------
+# large decisions: latent functions accumulate over the selected individuals / crosses / markers -- 130 taxa with int8
+# genotypes (one locus fixed for 2, one almost fixed), selections of 63..129 members (allele-count sums pass 127 and 255)
+BIG_N = 130
+BIG_K = (63, 64, 65, 127, 128, 129)
+
+
+class BigFx(Fx):
+    def __init__(self, seed, layout="2x2"):
+        n = BIG_N
+        self.n, self.variant, self.seed, self.layout = n, "big", seed % 3, layout
+        self.perm = tuple(range(n))
+        self.shared, self._objs, self._args = False, {}, {}
+
+        def cnt(i, l):
+            if l == 1:
+                return 2                                   # fixed for the counted allele
+            if l == 0:
+                return 0 if i % 29 == 0 else 1 if i % 13 == 0 else 2     # almost fixed
+            return (i * (3 + l) + (i * i) // 7 + l) % 3
+        self.counts = [[cnt(i, l) for l in range(FX.M)] for i in range(n)]
+        self.phased = [[[1 if self.counts[i][l] > ph else 0 for l in range(FX.M)] for i in range(n)] for ph in range(2)]
+        self.taxa = [f"B{(i * 37) % n:03d}" for i in range(n)]
+        self.grp = [(i * 5) % 7 for i in range(n)]
+        self.bv = [[((i * 5 + 3 * t + self.seed * 7) % 11) * 0.5 - 2.0 + (0.125 if i % 9 == 1 else 0.0) for t in range(FX.T)] for i in range(n)]
+        self.u = [list(r) for r in FX.U[self.seed]]
+        self.u_nz = [[v if v != 0.0 else 0.75 for v in r] for r in self.u]
+        self.beta = list(FX.BETA[self.seed])
+        self.loc, self.scale = FX.LOCSCALE[self.seed]
+        self.tfreq = [list(r) for r in FX.TFREQ[self.seed]]
+        self.mkrwt = [[abs(v) for v in r] for r in self.u]
+        self.wts = FX.WEIGHTS[self.seed]
+        self.chrom = FX.LAYOUTS[layout]
+        v = [((i * 7) % 5 - 2) / 4 for i in range(n)]
+        self.kgen = [[(1.0 if i == j else 0.0) + 0.5 * v[i] * v[j] + (0.125 if abs(i - j) == 1 else 0.0) for j in range(n)] for i in range(n)]
+        self.kgen2 = [[(2.0 if i == j else 0.0) + 0.25 * v[i] * v[j] + (0.25 if abs(i - j) == 2 else 0.0) for j in range(n)] for i in range(n)]
+
+    def key(self):
+        return dict(n=self.n, variant="big", seed=self.seed, layout=self.layout)
+
+
+BIG_OPT = {"UC": {"unique": True}, "OHV": {"unique": True}, "EMBV": {"unique": True}, "OCS": {"K": "generic"}, "MGR": {"K": "generic"},
+           "MEH": {"K": "generic"}, "OPV": {"layout": "2x2", "nhaploblk": 2}, "GenotypeBuilder": {"layout": "2x2", "nhaploblk": 2, "nbest": 2}}
+
+
+def run_bigdecision(ctx, fname, focus=None):
+    fam = FM.BY_NAME[fname]
+    fx = BigFx(ctx.seed)
+    opt = BIG_OPT.get(fname, {})
+    U = Unit(fam, fx, opt, ctx.tier)
+    if fname == "L2":
+        U.d = {"Ks": [fx.kgen, fx.kgen2], "N": fx.n}
+    N = U.N
+    order = [(i * 37) % N for i in range(N)] if N == BIG_N else [(i * 1237) % N for i in range(N)]
+    assert len(set(order[:max(BIG_K)])) == max(BIG_K)
+    cfg = ("sum", "user", "dot", 5)
+    ctx.bounds.update({"big_decision_taxa": BIG_N, "big_decision_sizes": list(BIG_K)})
+    for enc in [e for e in FM.ENCS if e in fam.classes]:
+        cn = fam.classes[enc]
+        if focus and focus.get("cls") not in (None, cn):
+            continue
+        for k in BIG_K:
+            if focus and focus.get("k") not in (None, k):
+                continue
+            mem = order[:k]
+            if enc == "subset":
+                x = tuple(mem)
+            else:
+                v = [0] * N
+                for i in mem:
+                    v[i] = 1
+                if enc == "integer":
+                    v[mem[0]] = 2
+                x = tuple(FX.GRID[1] * t for t in v) if enc == "real" else tuple(v)
+            kk = k if enc == "subset" else N
+            case = dict(spec=["bigdecision", fname], stage="bigdecision", cls=cn, enc=enc, k=k, family=fname)
+            ctx.evaluations += 1
+            ctx.count("layer:big-decision")
+            ctx.count("cls:" + cn)
+            ctx.count("enc:" + enc)
+            built = []
+            if not ctx.guard(lambda: built.append(U.build(enc, kk, cfg)), case=case, sig_prefix=cn + ".__init__:"):
+                continue
+            prob, spec = built[0]
+            ctx.transitions += 1
+            got = []
+            if ctx.guard(lambda: got.append(check_latent(ctx, fam, U.d, U.L, cn, prob, enc, x, "", case)), case=case,
+                         sig_prefix=definer(prob, "latentfn") + ".latentfn:"):
+                ctx.traces += 1
+                ctx.outcome(digest((fname, "big", [round(t, 9) for t in got[0]])))
+            ctx.guard(lambda: check_eval(ctx, cn, prob, spec, enc, kk, [x], case, None), case=case, sig_prefix=definer(prob, "evalfn") + ".evalfn:")
+            key = digest((cn, "big", enc, k))
+            ctx.state(key)
+            ctx.nontriv(key)
+
+
+
+# ----------------------------------------------------------------------------------------------------------
 def run_discover(ctx):
     found, failed = discover()
     table = table_classes()
@@ -1191,6 +1291,8 @@ def run_shard(spec, ctx, focus=None):
         run_large(ctx, *spec[1:], focus=focus)
     elif kind == "chunks":
         run_chunks(ctx, *spec[1:], focus=focus)
+    elif kind == "bigdecision":
+        run_bigdecision(ctx, *spec[1:], focus=focus)
     else:
         raise KeyError(kind)
 
@@ -1203,7 +1305,7 @@ def finalize(ctx, tier, seed):
         assert c.get("cls:" + cn, 0) > 0, f"class never exercised: {cn}"
     for enc in FM.ENCS:
         assert c.get("enc:" + enc, 0) > 0, enc
-    for lay in ("definition", "agreement", "evalfn", "evaluate", "factory", "factory-latent", "history", "set-then-query", "matrix-factory", "factory-sharing", "chunks", "large", "large-latent"):
+    for lay in ("definition", "agreement", "evalfn", "evaluate", "factory", "factory-latent", "history", "set-then-query", "matrix-factory", "factory-sharing", "chunks", "large", "large-latent", "big-decision"):
         assert c.get("layer:" + lay, 0) > 0, lay
     for k in ("perm", "rescale", "encoding"):
         assert c.get("agree:" + k, 0) > 0, k
